@@ -27,6 +27,15 @@ MSetClean(I, k, v) ==
          [j \in 1..Len(idx) |-> IF idx[j] = first THEN [I[first] EXCEPT !.ap = <<k>>, !.val = v] ELSE I[idx[j]]]
 MDel(I, k) == LET idx == SetToSortSeq({i \in 1..Len(I) : i \notin Members(I, k)}, <) IN [j \in 1..Len(idx) |-> I[idx[j]]]
 
+\* the value a lookup of k hands out: the explicit binding's value, or the merged set of an attrpath family
+MValue(I, k) ==
+    LET m == Members(I, k) IN
+    IF \E i \in m : Len(I[i].ap) = 1 THEN I[CHOOSE i \in m : Len(I[i].ap) = 1].val
+    ELSE LET idx == SetToSortSeq(m, <) IN SetV(TRUE, [j \in 1..Len(idx) |-> [I[idx[j]] EXCEPT !.ap = Drop(@, 1)]])
+\* a key that is an inherited name, or one root written both explicitly and through attrpath entries: what a
+\* lookup hands out is not prescribed
+PlainKey(I, k) == LET m == Members(I, k) IN m # {} /\ ((\A i \in m : Len(I[i].ap) = 1) \/ (\A i \in m : Len(I[i].ap) > 1))
+
 \* surfaces
 SurfaceItems(d, s) ==
     IF s.kind = "doc" THEN d.body.items
@@ -49,6 +58,9 @@ MOps(d) ==
     UNION { LET I == IF SurfaceOK(d, s) THEN SurfaceItems(d, s) ELSE <<>> IN
             { [m |-> f, s |-> s, k |-> k, v |-> v] : f \in {"get", "set", "del"}, k \in MKeys(I) \cup {"zz"},
                                                       v \in {IntV(7), SetV(FALSE, <<B(<<"k">>, IntV(7))>>)} }
+            \* m[dest] = m[src]: hand a looked-up value back to the mapping (dest = src: re-assignment; dest fresh: copy)
+            \cup UNION { { [m |-> "copy", s |-> s, k |-> dest, v |-> [k |-> "from", n |-> src]] : dest \in {src, "yy"} }
+                         : src \in MKeys(I) \cup {"zz"} }
           : s \in surfaces }
 
 \* a nested surface reached through an attrpath FAMILY root (src["f"] for f.x / f.y) is a synthesized view: the
@@ -59,6 +71,10 @@ MApply(d, o) ==
     ELSE IF ~SurfaceOK(d, o.s) THEN [doc |-> d, res |-> "raises"]             \* assigning / reading into a non-mapping value
     ELSE LET I == SurfaceItems(d, o.s) IN
          IF o.m = "set" THEN [doc |-> WithSurface(d, o.s, MSetClean(I, o.k, o.v)), res |-> "ok"]
+         ELSE IF o.m = "copy" THEN
+             (IF o.v.n \notin MKeys(I) THEN [doc |-> d, res |-> "KeyError"]
+              ELSE IF ~PlainKey(I, o.v.n) THEN [doc |-> d, res |-> "unspecified"]
+              ELSE [doc |-> WithSurface(d, o.s, MSetClean(I, o.k, MValue(I, o.v.n))), res |-> "ok"])
          ELSE IF o.k \notin MKeys(I) THEN [doc |-> d, res |-> "KeyError"]
          ELSE IF o.m = "get" THEN [doc |-> d, res |-> "ok"]
          ELSE [doc |-> WithSurface(d, o.s, MDel(I, o.k)), res |-> "ok"]
@@ -71,10 +87,11 @@ MNext == n < MaxDepth /\ \E o \in MOps(doc) : MDo(o)
 MInit == Init
 
 \* dictionary laws of the reference semantics
-MStepped == last.f \in {"get", "set", "del"}
+MStepped == last.f \in {"get", "set", "del", "copy"}
 PostIm == IF SurfaceOK(doc, last.s) THEN SurfaceItems(doc, last.s) ELSE <<>>
 PreIm == IF SurfaceOK(last.pre, last.s) THEN SurfaceItems(last.pre, last.s) ELSE <<>>
 C14_SetGet == (MStepped /\ last.f = "set" /\ last.res = "ok") => MTree(PostIm, last.k) = ValTree(last.v)
+C14_CopyGet == (MStepped /\ last.f = "copy" /\ last.res = "ok") => MTree(PostIm, last.k) = MTree(PreIm, last.v.n)
 C14_DelGet == (MStepped /\ last.f = "del" /\ last.res = "ok") => last.k \notin MKeys(PostIm)
 C14_OthersUntouched == (MStepped /\ last.res = "ok") =>
     \A k \in (MKeys(PreIm) \cup MKeys(PostIm)) \ {last.k} : MTree(PostIm, k) = MTree(PreIm, k) /\ (k \in MKeys(PreIm) <=> k \in MKeys(PostIm))
